@@ -486,6 +486,29 @@ func execFind(toks []string) string {
 			}
 		}
 	}
+	// share=1: equal grouped AVPs of the line are ONE object in the message (an application that
+	// puts the same *AVP, with the same *GroupedAVP behind it, into a message twice - directly or
+	// inside two different groups)
+	if sh, _ := kvGet(toks, "share"); sh == "1" {
+		seen := map[string]*diam.AVP{}
+		var share func(list []*diam.AVP)
+		share = func(list []*diam.AVP) {
+			for i, a := range list {
+				g, ok := a.Data.(*diam.GroupedAVP)
+				if !ok {
+					continue
+				}
+				k := showAVP(a)
+				if first, dup := seen[k]; dup {
+					list[i] = first
+					continue
+				}
+				seen[k] = a
+				share(g.AVP)
+			}
+		}
+		share(as)
+	}
 	m := diam.NewMessage(257, 0x80, uint32(app), 1, 1, dict.Default)
 	for _, a := range as {
 		m.AddAVP(a)
@@ -1367,6 +1390,16 @@ func genFind(r *RNG) string {
 	}
 	if k > 0 && r.Chance(30) { // the tree is edited between two queries
 		line += fmt.Sprintf(" edit=%d", 1+r.Intn(3))
+	} else if r.Chance(25) {
+		// the same grouped AVP twice: once more at the top level and once more inside a new group
+		for _, a := range as {
+			if _, ok := a.Data.(*diam.GroupedAVP); ok {
+				wrap := diam.NewAVP(grpCodes[r.Intn(len(grpCodes))], 0x40, 0, &diam.GroupedAVP{AVP: []*diam.AVP{a}})
+				as2 := append(append([]*diam.AVP{}, as...), a, wrap)
+				line = fmt.Sprintf("codec find d=default app=0 %s q=%s:%s share=1", showAVPs(as2), mode, strings.Join(codes, "."))
+				break
+			}
+		}
 	}
 	return line
 }
